@@ -343,12 +343,13 @@ def replay (cfg : Cfg) (c : Case) : KRes := Id.run do
 /-- Every non-empty combination of the repair flags (the implementation may carry any subset of
     the repairs; DESIGN 1.3). -/
 def fixedVariants (cfg : Cfg) : List Cfg :=
-  (List.range 1024).tail.map fun m =>
+  (List.range 2048).tail.map fun m =>
     { cfg with fixReapOrphan := m % 2 == 1, fixReack := (m / 2) % 2 == 1,
                fixWinUpdate := (m / 4) % 2 == 1, fixHsReset := (m / 8) % 2 == 1,
                fixRstAfterClose := (m / 16) % 2 == 1, fixOrphanTimeout := (m / 32) % 2 == 1,
                fixQuietClose := (m / 64) % 2 == 1, fixSynWindow := (m / 128) % 2 == 1,
-               fixSndMax := (m / 256) % 2 == 1, fixFinWait2Timeout := (m / 512) % 2 == 1 }
+               fixSndMax := (m / 256) % 2 == 1, fixFinWait2Timeout := (m / 512) % 2 == 1,
+               fixPersistProbe := (m / 1024) % 2 == 1 }
 
 /-! ### O: oracles on the implementation's observations -/
 
@@ -591,7 +592,7 @@ def withFlags (cfg src : Cfg) : Cfg :=
              fixHsReset := src.fixHsReset, fixRstAfterClose := src.fixRstAfterClose,
              fixOrphanTimeout := src.fixOrphanTimeout, fixQuietClose := src.fixQuietClose,
              fixSynWindow := src.fixSynWindow, fixSndMax := src.fixSndMax,
-             fixFinWait2Timeout := src.fixFinWait2Timeout }
+             fixFinWait2Timeout := src.fixFinWait2Timeout, fixPersistProbe := src.fixPersistProbe }
 
 def processCase (prop : String) (c : Case) (memo : IO.Ref (Option Cfg)) : IO (Bool × Bool) := do
   let k0 : KRes := if c.nok then { ok := true } else replay c.cfg c
@@ -600,12 +601,13 @@ def processCase (prop : String) (c : Case) (memo : IO.Ref (Option Cfg)) : IO (Bo
   let last ← memo.get
   let committed : Cfg := { c.cfg with fixReapOrphan := true, fixReack := true, fixWinUpdate := true, fixHsReset := true,
                                       fixRstAfterClose := true, fixQuietClose := true, fixSynWindow := true,
-                                      fixSndMax := true, fixFinWait2Timeout := true }
+                                      fixSndMax := true, fixFinWait2Timeout := true, fixPersistProbe := true }
   -- the trees before the FIN_WAIT2 timeout (F-C13-2) and before the SND.MAX repair (F-C06-8), kept so
   -- that older trees still match quickly
-  let committedOld : Cfg := { committed with fixFinWait2Timeout := false }
+  let committedOld0 : Cfg := { committed with fixPersistProbe := false }
+  let committedOld : Cfg := { committedOld0 with fixFinWait2Timeout := false }
   let committedOld2 : Cfg := { committedOld with fixSndMax := false }
-  let cands : List Cfg := [committed, committedOld, committedOld2] ++ (match last with | some f => [withFlags c.cfg f] | none => []) ++ fixedVariants c.cfg
+  let cands : List Cfg := [committed, committedOld0, committedOld, committedOld2] ++ (match last with | some f => [withFlags c.cfg f] | none => []) ++ fixedVariants c.cfg
   let found := if c.nok || k0.ok then none
     else cands.findSome? fun cfg => let r := replay cfg c; if r.ok then some (cfg, r) else none
   if let some (cfg, _) := found then memo.set (some cfg)
